@@ -19,6 +19,7 @@ import (
 	"github.com/grafana/carbon-relay-ng/validate"
 	m20 "github.com/metrics20/go-metrics20/carbon20"
 	log "github.com/sirupsen/logrus"
+	"pgregory.net/rapid"
 )
 
 var initOnce sync.Once
@@ -36,6 +37,17 @@ func Init() {
 		// pre-allocation is lowered; the buffers grow on demand.
 		dest.VerifSetKeepSafeCap(64)
 	})
+}
+
+// DrawLogLevel sets the relay's log level for the current case (the configuration knob log_level: most code that only
+// runs at debug/trace level is logging, but it handles the very buffers that are forwarded) and returns a restore
+// function.  Output goes nowhere.
+func DrawLogLevel(t *rapid.T) (string, func()) {
+	Init()
+	lvl := rapid.SampledFrom([]string{"panic", "panic", "panic", "info", "debug", "trace"}).Draw(t, "log_level")
+	l, _ := log.ParseLevel(lvl)
+	log.SetLevel(l)
+	return lvl, func() { log.SetLevel(log.PanicLevel) }
 }
 
 // ---- capture route -----------------------------------------------------------
